@@ -128,7 +128,7 @@ func runMem(c Case, tr *Tracer) {
 				forceSub = lastSub
 			}
 		}
-		op := rr.Intn(16)
+		op := rr.Intn(17)
 		if forceOp >= 0 {
 			op, forceOp = forceOp, -1
 		} else if r := rr.Intn(8); r == 0 {
@@ -265,6 +265,20 @@ func runMem(c Case, tr *Tracer) {
 			lr.read = func() string { b, _ := hw.Bytes(); return string(b) }
 			add(lr)
 			emit(Ev{"ev": "Codec", "r": id, "fn": "packet.Writer", "same": lr.snap == string(own)}, "Codec")
+		case 16: // the owner of a decoded PDU writes to it: containers, byte members, octets behind the entries' accessors
+			var decs []*liveResult
+			for _, lr := range live {
+				if lr.kind == "decode" && lr.pdu != nil {
+					decs = append(decs, lr)
+				}
+			}
+			if len(decs) == 0 {
+				continue
+			}
+			own := decs[rr.Intn(len(decs))]
+			callerMutates(own.pdu)
+			own.snap = own.read()
+			emit(Ev{"ev": "ScribbleResult", "r": own.id}, "ScribbleResult")
 		case 15: // a held result goes through a short-lived writer of the caller (prefix a frame, copy it on): the writer is given back
 			var held []*liveResult
 			for _, lr := range live {
